@@ -132,7 +132,10 @@ func c08Probe(w *sim.World) error {
 }
 
 // c08Run executes one case on a fresh world. inconclusive != "" means the run decided nothing.
+var c08Worlds int // one-node worlds of this file (counted apart from the ledger machine's budget)
+
 func c08Run(c c08Case) (sig, msg string, nontrivial bool, inconclusive string) {
+	c08Worlds++
 	w, err := c08Build(c)
 	if err != nil {
 		if w != nil {
@@ -493,7 +496,9 @@ func TestC08(t *testing.T) {
 
 	t.Run("random", func(t *testing.T) {
 		rapid.Check(t, func(rt *rapid.T) {
-			if pastSoftDeadline(st) {
+			if pastSoftDeadline(st) || c08Worlds >= 3*maxWorlds() {
+				// (one-node worlds of a few dozen vertices: three of them weigh about as much as one ledger-machine world)
+				st.label("case-not-run:world-budget-of-process-used-up")
 				return
 			}
 			var c c08Case
